@@ -25,7 +25,7 @@ EXPLANATION = (
 NOT_DECIDED = ["conservation sum_i R_i == integral of the response as an arithmetic fact (follows from the decided formulas by the tiling lemma; lemma stated)",
                "NaN handling inside integrate beyond NaN->0; searchsorted tie side at exact equality"]
 ASSUMPTIONS = ["one generic bin / SED / filter stands for every iteration of its loop", "np.searchsorted returns the insertion index on an increasing grid",
-               "samples are finite and distinct in integrate_subset's by-value cases (what integrate does with NaN samples is compared separately)"]
+               "samples are finite, distinct and non-zero in integrate_subset's by-value cases (what integrate does with NaN samples is compared separately)"]
 TRUSTED = ["python ast", "sedlint E4/E5"]
 MIN = {'ALG-13': 8, 'CFG-11a': 2, 'CFG-11b': 8, 'ALG-14': 6, 'CFG-11c': 1}
 TECHNIQUE = ('static analysis: abstract interpretation of the source to algebraic normal forms, with finite-domain specialisation (bin position; integrate_subset on a grid of '
@@ -530,6 +530,13 @@ def integrate_subset_by_value(ctx, n=4):
                                 return expand(tot)
                             if at_[0] == 'ind' and at_[1] in ('isnan', 'isinf'):
                                 return Poly()          # finite samples (what integrate does with NaN samples is ALG-13's business)
+                            if at_[0] == 'fn' and at_[1] in ('any', 'all') and len(at_) == 3 and at_[2][0] == 'B' and at_[2][1] in I.axis_len:
+                                # any() / all() of samples: of no samples at all it is False / True; of some samples, generic ones (none exactly zero), True
+                                inner_ = Poly.from_key(at_[2][2])
+                                if I.axis_len[at_[2][1]] == 0:
+                                    return Poly.const(0 if at_[1] == 'any' else 1)
+                                if not alg.contains_atom(inner_, lambda b_: b_[0] == 'ind') and {s_ for s_ in alg.leaf_syms(inner_)[0] if not s_.startswith('idx:')} <= {'y'}:
+                                    return Poly.const(1)
                             return None
                         return alg.rebuild(p_, f)
                     try:
